@@ -1,8 +1,11 @@
 (* C18 - the CLI bridge is transparent (resolver mode state machine) *)
-From VL Require Import Base Json Schema Wire Service Cli.
+From VL Require Import Base Json Schema Wire Service Cli CliFacts.
+From VLG Require Import ProxyGen WireGen.
 
-Theorem C18_bridge_transparent : forall w qs st, binv w st -> brun w st qs = direct_all w qs.
-Proof. exact bridge_transparent. Qed.
+(* the cache discipline is a parameter of the model; it is instantiated at what tr/proxy.py reads from proxy.rs *)
+Theorem C18_bridge_transparent : forall w qs st, binv w st ->
+  brun cache_key_always_updated w st qs = direct_all w qs.
+Proof. intros w qs st. exact (bridge_transparent _ w qs src_key_always st). Qed.
 Print Assumptions C18_bridge_transparent.
 
 Theorem C18_initial_state : forall w, binv w (mkbs None None).
@@ -10,6 +13,14 @@ Proof. exact binv_init. Qed.
 Print Assumptions C18_initial_state.
 
 Theorem C18_step_routes_like_direct : forall w st q, binv w st ->
-  snd (bstep w st q) = direct w q /\ binv w (fst (bstep w st q)).
-Proof. exact bstep_direct. Qed.
+  snd (bstep cache_key_always_updated w st q) = direct w q /\ binv w (fst (bstep cache_key_always_updated w st q)).
+Proof. intros w st q. exact (bstep_direct _ w st q src_key_always). Qed.
 Print Assumptions C18_step_routes_like_direct.
+
+Theorem C18_strings_are_the_sources : proxy_getinfo = m_getinfo /\ proxy_getinfo_rewritten = s_resolver_getinfo /\
+  proxy_resolver_name = s_resolver_name.
+Proof. exact src_proxy_strings. Qed.
+Print Assumptions C18_strings_are_the_sources.
+
+(* why the flag matters: with the key updated only after a lookup, [a; resolver; a] sends the second a to the resolver *)
+Check stale_cache_misroutes.
